@@ -36,6 +36,9 @@ var corpus = []string{
 	`query Op { a { id ... @defer { a1 } ... @defer(label: "x") { a1 a2 } } }`,
 	`query Op { a { id ... @defer(label: "outer") { name ... @defer { a2 } } } }`,
 	`query Op { a { a1 ... @defer { name } } b { id ... @defer { other { id } } } }`,
+	// the if argument is nullable: null (a literal, or a variable without a value) means what its default means
+	`query Op { a { a1 ... @defer(if: null) { name } ...F @defer(if: null, label: "f") } } fragment F on A { a2 }`,
+	`query Op($c: Boolean) { a { a1 ... @defer(if: $c) { name } ...F @defer(if: $c, label: "f") } } fragment F on A { a2 }`,
 }
 
 type descr struct {
@@ -232,7 +235,7 @@ func Run(c *gen.Ctx) error {
 	meta.Evaluations = cf.Len()
 	meta.Programs = len(probes)
 	meta.DistinctNontrivial = len(distinct)
-	meta.Rule = "15 pinned deferred operations (several labels per object, one label used by two fragments around other fields, groups inside lists, nested groups, if: false / variable, spreads, a field both deferred and not, a field deferred by two fragments the first of which has no label, @defer at the root) plus random valid operations with @defer on inline fragments and spreads (any if/label) x oracles with 0-2 failures (error, panic, null) anywhere and random resolver delays (completion orders) on probe servers generated from the current templates; all payloads recorded in arrival order. distinct_nontrivial = distinct (operation, oracle) with at least two incremental payloads."
+	meta.Rule = "17 pinned deferred operations (several labels per object, one label used by two fragments around other fields, groups inside lists, nested groups, if: false / variable, spreads, a field both deferred and not, a field deferred by two fragments the first of which has no label, @defer at the root) plus random valid operations with @defer on inline fragments and spreads (any if/label) x oracles with 0-2 failures (error, panic, null) anywhere and random resolver delays (completion orders) on probe servers generated from the current templates; all payloads recorded in arrival order. distinct_nontrivial = distinct (operation, oracle) with at least two incremental payloads."
 	meta.Samples = []any{descrs[0], descrs[len(descrs)/2]}
 	meta.Distribution = map[string]any{"operations": len(ops), "plans": len(plan), "configurations": len(probes), "generated_but_invalid_discarded": invalid, "payload_counts": stats}
 	if err := listGroups(c, probes, meta); err != nil {
